@@ -60,13 +60,14 @@ class AlgebraDriver:
             else:
                 a = self.pre[ev["i"] - 1]
                 b = self.pre[ev["j"] - 1] if ev["j"] else None
-                r = {"pmul": lambda: a * b, "pdiv": lambda: a / b, "ppow": lambda: a ** n, "proot": lambda: a.root(n)}[op]()
+                r = {"pmul": lambda: a * b, "pdiv": lambda: a / b, "ppow": lambda: a ** n, "proot": lambda: a.root(n),
+                     "pmulpow": lambda: (a * b) ** n, "pdivpow": lambda: (a / b) ** n}[op]()
             out = "ok"
         except m.FractionalDimensionError:
             r, out = None, "fractional"
         except Exception as ex:
             r, out = None, "OTHER:" + type(ex).__name__
-        desc = "%s(%s%s)" % (op, a, (", %s" % b) if b is not None else ", %d" % n)
+        desc = "%s(%s%s%s)" % (op, a, (", %s" % b) if b is not None else "", (", %d" % n) if (b is None or op.endswith("pow")) else "")
         if ev["kind"] == "fractional":
             if out == "ok" and op == "proot":
                 # a root that does not exist may raise; if it returns, its n-th power must give the operand back
@@ -97,7 +98,18 @@ class AlgebraDriver:
         else:   # different bases: numeric scale within 1e-9
             p, q = ev["p"], ev["q"]
             fp, fq = float(p[0]) ** p[1] if p[0] else 1.0, float(q[0]) ** q[1] if q[0] else 1.0
-            want = fp * fq if op == "pmul" else fp / fq
+            want = fp * fq if op in ("pmul", "pmulpow") else fp / fq
+            if op in ("pmulpow", "pdivpow"):
+                want = want ** n
+                # x**n is also the n-fold product (x**a * x**b is x**(a+b)), by value
+                x = (a * b) if op == "pmulpow" else (a / b)
+                prod = m.IdentityPrefix
+                for _ in range(abs(n)):
+                    prod = prod * x
+                if n < 0:
+                    prod = m.IdentityPrefix / prod
+                if abs(float(prod.quantify()) / float(r.quantify()) - 1) > 1e-9:
+                    mm.append(self._mm("C02", "%s:power-is-not-the-repeated-product" % op, "%s: (..)**%d has factor %r, the %d-fold product %r" % (desc, n, float(r.quantify()), n, float(prod.quantify()))))
             got = float(r.quantify())
             if abs(got / want - 1) > 1e-9:
                 mm.append(self._mm("C02", "%s:cross-base-value" % op, "%s has factor %r, expected %r" % (desc, got, want)))
